@@ -859,7 +859,7 @@ theorem settingsCols_pickle (ident : Nat → Nat) (cols : List (Path × List (Na
 theorem pickleCodec_lawful (c : Cfg) (hg : c.good = true) (ident : Nat → Nat) : (pickleCodec c ident).Lawful := by
   intro e
   have hres : c.decoderResolvesRefs = true := by
-    simp only [Cfg.good, Bool.and_eq_true] at hg; exact hg.1.1
+    simp only [Cfg.good, Bool.and_eq_true] at hg; exact hg.1.1.1
   obtain ⟨id, timeout, step, stored⟩ := e
   cases stored with
   | plain s =>
@@ -901,7 +901,21 @@ def C19_full_cfg (c : Cfg) : Prop :=
     (runReqs c (reqs ++ [.steps ops])).file = some s ∧ ∃ spec ops', s = run spec ops') ∧
   -- wave 6: the restore installs the decoded session as it is — in particular the restored clock IS the saved clock, for
   -- every start time and dt (the codec side is the identity on `step`: `StateEq.step`, `SessionEq.step` above)
-  (∀ s : Session, setState c s = s)
+  (∀ s : Session, setState c s = s) ∧
+  -- wave 8: whatever was compressed earlier in the process, every saved log is loaded and is the decompression of ITS
+  -- compression (which `settings_roundtrip` shows equal to the log)
+  (∀ saves : List (Log × List Nat), (∀ s ∈ saves, ∀ i ∈ s.2, i < s.1.length) →
+    saveSeq c.compressIsPure [] saves = saves.map fun s => some (decompressSettings (compressSettings s.1)))
+
+theorem saveSeq_pure : ∀ (saves : List (Log × List Nat)) (acc : List Nat), (∀ s ∈ saves, ∀ i ∈ s.2, i < s.1.length) →
+    saveSeq true acc saves = saves.map fun s => some (decompressSettings (compressSettings s.1))
+  | [], _, _ => rfl
+  | (log, own) :: r, acc, h => by
+    have h0 : own.all (· < log.length) = true := by
+      simp only [List.all_eq_true, decide_eq_true_eq]
+      exact fun i hi => h (log, own) (by simp) i hi
+    simp only [saveSeq, if_true, h0, List.map_cons]
+    rw [saveSeq_pure r (acc ++ own) (fun s hs => h s (by simp [hs]))]
 
 theorem stepReq_live_is_run (c : Cfg) (st : IState) (rq : Req)
     (h : ∀ s, st.session = some s → ∃ spec ops, s = run spec ops) :
@@ -946,11 +960,25 @@ theorem file_is_live (c : Cfg) (hs : c.saveAfterEveryStepRequest = true) (reqs :
 
 theorem C19_full_of_good (c : Cfg) (h : c.good = true) : C19_full_cfg c :=
   ⟨C19_full_holds, fun ident compress => C19_full_holds _ _ (pickleCodec_lawful c h ident) compress,
-   fun reqs ops s hs => ⟨file_is_live c (by simp only [Cfg.good, Bool.and_eq_true] at h; exact h.1.2) reqs ops s hs,
+   fun reqs ops s hs => ⟨file_is_live c (by simp only [Cfg.good, Bool.and_eq_true] at h; exact h.1.1.2) reqs ops s hs,
      runReqs_live_is_run c _ s hs⟩,
    fun s => by
-     have hk : c.restoreKeepsClock = true := by simp only [Cfg.good, Bool.and_eq_true] at h; exact h.2
-     simp [setState, hk]⟩
+     have hk : c.restoreKeepsClock = true := by simp only [Cfg.good, Bool.and_eq_true] at h; exact h.1.2
+     simp [setState, hk],
+   fun saves hs => by
+     have hq : c.compressIsPure = true := by simp only [Cfg.good, Bool.and_eq_true] at h; exact h.2
+     rw [hq]; exact saveSeq_pure saves [] hs⟩
+
+/-- A process-level accumulator in `compress_settings`: session A (two steps, a dictionary without a value at step 1) is saved,
+then session B (one step): B's compressed state carries A's entry `[1, …]`, B has no step 1, B's load fails. -/
+theorem C19_witness_compress_accumulates (c : Cfg) (h : c.compressIsPure = false) : ¬ C19_full_cfg c := by
+  intro hf
+  have h5 := hf.2.2.2.2 [([(2048, []), (2560, [])], [1]), ([(2048, [(7, "5.0")])], [])] (by decide)
+  rw [h] at h5
+  exact absurd h5 (by decide)
+
+example : saveSeq false [] [([(2048, []), (2560, [])], [1]), ([(2048, [(7, "5.0")])], [])] =
+    [some [(2048, []), (2560, [])], none] := by decide
 
 /-- a session at dt 0.125 after three steps: clock 0.375 -/
 def eighthSpec : RunSpec := { paths := [0], start := 0, dt := 80000, stop := 6400000 }
@@ -959,7 +987,7 @@ def threeSteps : List StepOp := [⟨some [], fun _ => "1.0"⟩, ⟨some [], fun 
 /-- a restore that re-normalises the clock to two decimals moves 0.375 to 0.38 (logs untouched) -/
 theorem C19_witness_rounding_restore (c : Cfg) (h : c.restoreKeepsClock = false) : ¬ C19_full_cfg c := by
   intro hf
-  have h4 := hf.2.2.2 (run eighthSpec threeSteps)
+  have h4 := hf.2.2.2.1 (run eighthSpec threeSteps)
   simp only [setState, h] at h4
   exact absurd (congrArg Session.step h4) (by decide)
 
@@ -976,18 +1004,18 @@ managers / equations) taken by `run-steps` to the clock position written last is
 first session. -/
 theorem C19_witness_skip_save (c : Cfg) (h : c.saveAfterEveryStepRequest = false) : ¬ C19_full_cfg c := by
   intro hf
-  obtain ⟨r, sv, k⟩ := c
+  obtain ⟨r, sv, k, q⟩ := c
   simp only at h
   subst h
   have h3 := hf.2.2.1 [.beginSession sessA, .steps twoSteps, .beginSession sessB] twoSteps (run sessB twoSteps)
-  cases r <;> cases k <;> exact absurd (h3 (by decide)).1 (by decide)
+  cases r <;> cases k <;> cases q <;> exact absurd (h3 (by decide)).1 (by decide)
 
 /-- what the file holds in that history, and that single steps never show it (the clock moves with every step) -/
-example : (runReqs ⟨true, false, true⟩ [.beginSession sessA, .steps twoSteps, .beginSession sessB, .steps twoSteps]).file
+example : (runReqs ⟨true, false, true, true⟩ [.beginSession sessA, .steps twoSteps, .beginSession sessB, .steps twoSteps]).file
     = some (run sessA twoSteps) := by decide
-example : (runReqs ⟨true, false, true⟩ [.beginSession sessA, .steps twoSteps, .endSession, .beginSession sessB, .steps twoSteps]).file
+example : (runReqs ⟨true, false, true, true⟩ [.beginSession sessA, .steps twoSteps, .endSession, .beginSession sessB, .steps twoSteps]).file
     = some (run sessA twoSteps) := by decide
-example : (runReqs ⟨true, false, true⟩ [.beginSession sessA, .steps (twoSteps.take 1), .steps (twoSteps.drop 1), .beginSession sessB,
+example : (runReqs ⟨true, false, true, true⟩ [.beginSession sessA, .steps (twoSteps.take 1), .steps (twoSteps.drop 1), .beginSession sessB,
       .steps (twoSteps.take 1), .steps (twoSteps.drop 1)]).file
     = some (run sessB twoSteps) := by decide
 
@@ -1002,19 +1030,19 @@ settings object was logged for two steps: the second entry comes back as `{"py/i
 theorem C19_witness_plain_reader (c : Cfg) (h : c.decoderResolvesRefs = false) : ¬ C19_full_cfg c := by
   intro hf
   obtain ⟨st', hl, _⟩ := (hf.2.1 (fun _ => 0) false).1 shareSpec shareOps 0 0 (fun _ => none)
-  obtain ⟨r, sv, k⟩ := c
+  obtain ⟨r, sv, k, q⟩ := c
   simp only at h
   subst h
-  have : loadInstance (pickleCodec ⟨false, sv, k⟩ (fun _ => 0))
-      (saveInstance (pickleCodec ⟨false, sv, k⟩ (fun _ => 0)) false (fun _ => none) (instanceState 0 0 (run shareSpec shareOps))) 0
-      = none := by cases sv <;> cases k <;> decide +kernel
+  have : loadInstance (pickleCodec ⟨false, sv, k, q⟩ (fun _ => 0))
+      (saveInstance (pickleCodec ⟨false, sv, k, q⟩ (fun _ => 0)) false (fun _ => none) (instanceState 0 0 (run shareSpec shareOps))) 0
+      = none := by cases sv <;> cases k <;> cases q <;> decide +kernel
   rw [this] at hl
   cases hl
 
 /-- the same in compressed mode with a list-valued setting: the value of the second column entry is a back-reference -/
 theorem C19_witness_plain_reader_compressed :
-    loadInstance (pickleCodec ⟨false, true, true⟩ (fun _ => 0))
-      (saveInstance (pickleCodec ⟨false, true, true⟩ (fun _ => 0)) true (fun _ => none) (instanceState 0 0 (run shareSpec sharePointsOps))) 0
+    loadInstance (pickleCodec ⟨false, true, true, true⟩ (fun _ => 0))
+      (saveInstance (pickleCodec ⟨false, true, true, true⟩ (fun _ => 0)) true (fun _ => none) (instanceState 0 0 (run shareSpec sharePointsOps))) 0
       = none := by decide +kernel
 
 theorem decode_noRef (r : Bool) (j : J) (hn : noRef j = true) : decode r j = decode true j := by
@@ -1026,7 +1054,7 @@ theorem decode_noRef (r : Bool) (j : J) (hn : noRef j = true) : decode r j = dec
 back-reference (no settings object logged twice, e.g. only `run-step` requests over HTTP) is read back. -/
 theorem C19_partial_cfg (c : Cfg) (ident : Nat → Nat) (e : Envelope) (hn : noRef (settingsJ ident e.stored) = true) :
     (pickleCodec c ident).dec ((pickleCodec c ident).enc e) = some e := by
-  have hgood := pickleCodec_lawful ⟨true, true, true⟩ rfl ident e
+  have hgood := pickleCodec_lawful ⟨true, true, true, true⟩ rfl ident e
   simp only [pickleCodec] at hgood ⊢
   rw [decode_noRef _ _ hn]
   exact hgood
@@ -1034,8 +1062,8 @@ theorem C19_partial_cfg (c : Cfg) (ident : Nat → Nat) (e : Envelope) (hn : noR
 /-- non-vacuity: the back-reference really is in the written text, and the unpickler restores both modes -/
 example : noRef (settingsJ (fun _ => 0) (store false (run shareSpec shareOps))) = false := by decide +kernel
 example : noRef (settingsJ (fun _ => 0) (store true (run shareSpec sharePointsOps))) = false := by decide +kernel
-example : loadInstance (pickleCodec ⟨true, true, true⟩ (fun _ => 0))
-      (saveInstance (pickleCodec ⟨true, true, true⟩ (fun _ => 0)) true (fun _ => none) (instanceState 0 0 (run shareSpec sharePointsOps))) 0
+example : loadInstance (pickleCodec ⟨true, true, true, true⟩ (fun _ => 0))
+      (saveInstance (pickleCodec ⟨true, true, true, true⟩ (fun _ => 0)) true (fun _ => none) (instanceState 0 0 (run shareSpec sharePointsOps))) 0
       = some (instanceState 0 0 (unstore (store true (run shareSpec sharePointsOps)))) := by decide +kernel
 
 /-! ### non-vacuity and the shapes named in the statement -/
@@ -1081,5 +1109,7 @@ example : (compressSettings (run demoSpec demoOps).settingsLog) =
 #print axioms runReqs_live_is_run
 #print axioms C19_witness_skip_save
 #print axioms C19_witness_rounding_restore
+#print axioms C19_witness_compress_accumulates
+#print axioms saveSeq_pure
 
 end Bptk.C19
